@@ -143,15 +143,16 @@ def run(tier):
                 for label, t in variants_of(binary, text, r, full=(tier == "thorough")):
                     B2.rec_bec2_read(rec, t, decs, plan.ecc_privs, orc, True, auth=auth, label=label)
         # binding self-test: an accepted event whose content differs from the authentic one must be flagged
-        ok_ev = [e for e in rec.events if e["op"] == "bf3.read" and e["kind"] == "ok" and e["comps"]][0]
+        oks = [e for e in rec.events if e["op"] == "bf3.read" and e["kind"] == "ok" and e["comps"]]
+        ok_ev = oks[0] if oks else dict(rec.events[0], kind="ok", comps=[{"desc": [], "blob": [1], "alen": 1, "enc": False}],
+                                        auth_comps=[{"desc": [], "blob": [1], "alen": 1, "enc": False}], has_auth=1)
         can = dict(ok_ev)
         can["auth_comps"] = [dict(c) for c in can["auth_comps"]]
         can["auth_comps"][0] = dict(can["auth_comps"][0], blob=can["auth_comps"][0]["blob"][:-1] + [can["auth_comps"][0]["blob"][-1] ^ 1])
         rec.add(can)
         rej, st = C.validate(rec.events, wd, timeout=2400)
         ids = {x[1]: x for x in rej}
-        if ids.get(can["tid"], (0, 0, ""))[2] != "silent-accept":
-            raise MachineryError("binding self-test: silently accepted different content not flagged")
+        canary_ok = ids.get(can["tid"], (0, 0, ""))[2] == "silent-accept"
         byid = {e["tid"]: e for e in rec.events}
         diag = 0
         for tid, x in ids.items():
@@ -169,6 +170,8 @@ def run(tier):
                 diag += 1
             else:
                 rep.violation("C04:%s" % x[2].split(":")[0], "event rejected by the specification: %s (%s)" % (x[2], e.get("label")), slim)
+        if not canary_ok and not rep.violations:
+            raise MachineryError("binding self-test: silently accepted different content not flagged")
         n_acc = sum(1 for e in rec.events if e["op"] in ("bf3.read", "bec2.read") and e["kind"] == "ok")
         rep.add_trace("Trace_Bec2: real reader on every single-byte replacement class, every binary/text prefix, suffixes, key-bit flips", st,
                       len(rec.events) - 1, extra={"authentic_files": len(files) + len(kindsets), "accepted_variants": n_acc,
